@@ -23,7 +23,10 @@ import hlib  # noqa: E402
 import secsgem.secs  # noqa: E402
 
 EN, DIS, SEL, LOST, T3, DLY = ("en",), ("dis",), ("sel",), ("lost",), ("t3",), ("dly",)
+CFG = ("cfg",)  # the application changes the configured establish-communications delay (public settings setter)
 RX13 = ("rx", 1, 13, 1, "in", None)
+RX13Z = ("rx", 1, 13, 1, "zero", None)  # system bytes 0x00000000
+DELAYS = [3, 17, 10, 1, 25]
 USER_CB = (64, 1)  # an uncatalogued stream/function with a user callback (counts calls, returns None)
 
 
@@ -77,6 +80,8 @@ class Run:
             return self.ids[-2], len(self.ids) - 2
         if kind == "in":
             return Rig.INBOUND + n, Rig.INBOUND + n
+        if kind == "zero":
+            return 0, 0
         return Rig.FOREIGN + n, Rig.FOREIGN + n
 
     def apply(self, lt):
@@ -87,7 +92,12 @@ class Run:
         mark = len(rig.log)
         token = lt[0]
         info = {}
-        if lt == EN:
+        m = rig.h._communication_state
+        timers_before = (id(m._wait_cra_timer), id(m._comm_delay_timer))
+        if lt == CFG:
+            self.ncfg = getattr(self, "ncfg", 0) + 1
+            rig.settings.establish_communication_timeout = DELAYS[self.ncfg % len(DELAYS)]
+        elif lt == EN:
             try:
                 rig.bounded(rig.h.enable, "enable()")
             except Stuck:
@@ -144,6 +154,11 @@ class Run:
             elif e[0] in ("cb", "unk", "ws", "evt", "blk"):
                 outs.append(tuple(e))
         t3_a, dl_a = self.timers()
+        # a timer armed by this step must carry the duration that is configured now
+        if t3_a and id(m._wait_cra_timer) != timers_before[0]:
+            info["t3_armed_with"] = (m._wait_cra_timer.interval, rig.settings.timeouts.t3)
+        if dl_a and id(m._comm_delay_timer) != timers_before[1]:
+            info["delay_armed_with"] = (m._comm_delay_timer.interval, rig.settings.establish_communication_timeout)
         st = {"letter": lt, "before": before, "after": rig.comm(), "link_before": link_before, "link_after": rig.link,
               "t3_before": t3_b, "dly_before": dl_b, "t3_after": t3_a, "dly_after": dl_a, "outs": outs,
               "queued": rig.p._send_queue.qsize(), "info": info}
@@ -236,6 +251,9 @@ def oracle(steps):
                             f"S1F14 COMMACK={lt[5]} (refusal) in WAIT_CRA did not start the establish-communications delay", i))
             if lt == DLY and before == "WAIT_DELAY" and st["dly_before"] and not (after == "WAIT_CRA" and ids and st["t3_after"]):
                 bad.append(("no-retry", "delay expiry in WAIT_DELAY did not send S1F13 again", i))
+        for key, what in (("delay_armed_with", "establish-communications delay"), ("t3_armed_with", "reply timeout T3")):
+            if key in st["info"] and st["info"][key][0] != st["info"][key][1]:
+                bad.append(("wrong-timer-duration", f"the timer armed for the {what} runs {st['info'][key][0]} s, configured are {st['info'][key][1]} s", i))
         # clause 4: nothing is handed to the callbacks unless established
         if before != "COMMUNICATING":
             cbs = [o for o in outs if o[0] == "cb"]
@@ -305,19 +323,28 @@ def gen_histories(rng, tier, search):
     out = []  # (role, commack_req, letters, kind)
     depth = 4 if tier == "thorough" else 3
     wide = RX14_KEY + [OTHER[0], OTHER[2]] + [EN, DIS, SEL, LOST, T3, DLY, RX13]
+    wide_cfg = wide + [CFG, RX13Z]
     for role in ("equipment", "host"):
         for bi, base in enumerate(BASES):
             # the wide alphabet (key S1F14 variants spelled out), all words of length <= 2
-            for k in (1, 2):
+            for k in ((1, 2) if big or role == "equipment" or bi in (2, 3, 4, 5) else (1,)):
                 for idx in product(len(wide), k):
                     out.append((role, 0, base + [wide[i] for i in idx], "exh-wide"))
             # the 9-letter alphabet, all words of length `depth` (variant of the two parameterised letters drawn per occurrence)
-            if not big and (bi in (0, 6, 8) or (role == "host" and bi in (1, 5, 7))):
+            if not big and (bi in (0, 5, 6, 8) or (role == "host" and bi in (1, 3, 7))):
                 continue  # quick: the long words start from the prefixes that differ most (all of them in thorough)
             for idx in product(len(CLASSES), depth):
                 out.append((role, 0, base + [variants(rng, CLASSES[i]) for i in idx], f"exh-{depth}"))
     n_rand = 3000 if big else 500
-    weights = [EN] * 2 + [DIS] + [SEL] * 3 + [LOST] * 2 + [T3] * 3 + [DLY] * 3 + [RX13] * 2 + ["rx14"] * 5 + ["other"] * 3
+    weights = [EN] * 2 + [DIS] + [SEL] * 3 + [LOST] * 2 + [T3] * 3 + [DLY] * 3 + [RX13] * 2 + ["rx14"] * 5 + ["other"] * 3 + [CFG] * 2 + [RX13Z]
+    # the configured delay changes, then an attempt fails; an S1F13 with system bytes 0: all words of length <= 2 from three prefixes
+    for role in ("equipment", "host"):
+        for base in ([EN, SEL], [CFG, EN, SEL, T3, DLY], [EN, SEL, rx14("match", 0), CFG, LOST]):
+            for k in (1, 2):
+                for idx in product(len(wide_cfg), k):
+                    w = [wide_cfg[i] for i in idx]
+                    if CFG in w or RX13Z in w or CFG in base:
+                        out.append((role, 0, base + w, "exh-cfg"))
     for i in range(n_rand):
         role = "equipment" if i % 2 else "host"
         ck = rng.choice([0, 0, 0, 1, 63])
